@@ -189,6 +189,10 @@ var (
 
 var StubRuntime = []byte{byte(vm.STOP)}
 
+// topGas is ample: a frame that halts exceptionally forfeits 63/64 of what is left, and the model has no notion
+// of running out of gas because of that (up to 4 such frames may precede a 20000-gas SSTORE)
+const topGas = uint64(1_000_000_000_000)
+
 // InitCode for the init program names of the model.
 func InitCode(name string) []byte {
 	switch name {
@@ -563,11 +567,11 @@ func Run(s *Scenario, fork string) (out Outcome) {
 		var res evmx.Result
 		if top.Kind == "create" {
 			env.Prepare(nil)
-			res = env.Create(w.addr("eoa"), InitCode(top.Init), 5_000_000, big.NewInt(int64(top.Val)))
+			res = env.Create(w.addr("eoa"), InitCode(top.Init), topGas, big.NewInt(int64(top.Val)))
 		} else {
 			to := w.addr(top.Tgt)
 			env.Prepare(&to)
-			res = env.Call(w.addr("eoa"), to, Calldata(top.Frame, top.Alen), 5_000_000, big.NewInt(int64(top.Val)))
+			res = env.Call(w.addr("eoa"), to, Calldata(top.Frame, top.Alen), topGas, big.NewInt(int64(top.Val)))
 		}
 		results = append(results, res)
 		if res.Panic != "" {
